@@ -1425,6 +1425,7 @@ def gen_C19(rng, tier):
             cases.append(mbi_case(E.mbi([E.t_elf(n, es, sh, bytes(64 * max(n, 1)))])))
             count(dist, "overflowing_products")
     cases += gen_elfname(rng, 3000 if tier == "thorough" else 60, dist)
+    cases += gen_bigelf(dist)
     return cases, dict(
         rule="elfname: 1..6 entries of size 40/64, the string table (1..6 names incl. empty, multi-byte and invalid UTF-8, "
              "6% without a final NUL) in an external buffer at a fixed 32-bit address in front of a guard page; every entry but "
@@ -1439,6 +1440,18 @@ def gen_C19(rng, tier):
 
 # ---- ELF section names (domain elfname): the string table lives in external memory at a fixed absolute address ----
 ELFNAME_EXT_END = 0x30002000     # page-aligned end of the external buffer; fits 32-bit sh_addr fields
+
+
+def gen_bigelf(dist):
+    """ELF-sections tags of n copies of one in-use section header, n around 2^8 and 2^16 (model: the closed form of C19_big)"""
+    cases = []
+    for es, ent in ((40, E.elf32_entry(5, 1, 6, 0x1000, 0, 0x200, 0, 0, 8, 0)), (64, E.elf64_entry(7, 3, 2, 0x2000, 0, 0x300, 0, 0, 16, 0))):
+        for n in (0, 1, 2, 255, 256, 257, 65535, 65536, 65537, 0x10003, 70000):
+            for sh in sorted(set([0, max(n - 1, 0), n, 0xFFFF, 0x10000 if n > 0x10000 else 1])):
+                if 44 + n * es < 2 ** 23:
+                    cases.append("bigelf %d %d %s" % (n, sh, hx(ent)))
+                    count(dist, "many_sections")
+    return cases
 
 
 def gen_elfname(rng, n, dist):
@@ -1520,7 +1533,7 @@ def judge_C19(case, ml, il):
                 return ("ok", "")
             return default_judge(case, ml[:k], il)
         return ("ok", "") if ml == il else default_judge(case, ml, il)
-    return judge_projection(["load", "get", "elf", "elf_section", "elf_end", "elf_nth", "elf_count", "elf_dbg", "elf_hist", "debug"])(case, ml, il)
+    return judge_projection(["load", "get", "elf", "elf_section", "elf_end", "elf_nth", "elf_count", "elf_last", "elf_dbg", "elf_hist", "debug"])(case, ml, il)
 
 
 # ---- header regions --------------------------------------------------------------------------------
